@@ -88,7 +88,9 @@ func (rm *RpcMultiplexer) CallUnaryMethod(
 
 	respChan := make(chan *goatorepo.Rpc, 1)
 
-	rm.registerHandler(streamId, respChan)
+	if err := rm.registerHandler(streamId, respChan); err != nil {
+		return nil, err
+	}
 	defer rm.unregisterHandler(streamId)
 
 	rpc := goatorepo.Rpc{
@@ -149,7 +151,9 @@ func (rm *RpcMultiplexer) NewStreamReadWriter(
 	streamId := atomic.AddUint64(&rm.streamCounter, 1)
 
 	respChan := make(chan *goatorepo.Rpc, 1)
-	rm.registerHandler(streamId, respChan)
+	if err := rm.registerHandler(streamId, respChan); err != nil {
+		return 0, nil, nil, err
+	}
 
 	teardown := func() {
 		rm.unregisterHandler(streamId)
@@ -210,12 +214,20 @@ func (rm *RpcMultiplexer) handleResponse(rpc *goatorepo.Rpc) {
 	ch <- rpc
 }
 
-func (rm *RpcMultiplexer) registerHandler(id uint64, c chan *goatorepo.Rpc) {
+func (rm *RpcMultiplexer) registerHandler(id uint64, c chan *goatorepo.Rpc) error {
 	rm.mutex.Lock()
 	defer rm.mutex.Unlock()
 
+	// closeError empties the registry exactly once: a call that registered
+	// after that would never be woken up, so refuse it here, atomically with
+	// the registration.
+	if rm.rErr != nil {
+		return rm.rErr
+	}
+
 	rm.handlers[id] = c
 	vEmit("mux.reg", rm, id, len(rm.handlers), "")
+	return nil
 }
 
 func (rm *RpcMultiplexer) unregisterHandler(id uint64) {
